@@ -949,6 +949,127 @@ def _pred_counts(blocks):
     return n
 
 
+# ------------------------------------------------------------------------------------------------ references to locals
+
+def eliminate_local_refs(body):
+    """`p = &mut L; .. (*p).f = v ..` with p defined once and only ever dereferenced is `L.f = v`: rewrite every `(*p)`
+    into `L` and drop p. This is what remains of `helper(&mut local)` after the helper was inlined; without it the
+    local looks address-taken and every analysis has to treat its value as unknown."""
+    m = body["mir"]
+    blocks = m["blocks"]
+    changed_any = False
+    for _ in range(6):
+        defs = {}
+        for bi, b in enumerate(blocks):
+            for si, st in enumerate(b["stmts"]):
+                defs.setdefault(st["place"]["local"], []).append((bi, si, st)) if not st["place"]["proj"] else None
+            t = b["term"]
+            if t["k"] == "call" and not t["dest"]["proj"]:
+                defs.setdefault(t["dest"]["local"], []).append((bi, "term", t))
+        target = {}
+        for l, ds in defs.items():
+            if l <= m["argc"] or len(ds) != 1 or ds[0][1] == "term":
+                continue
+            st = ds[0][2]
+            if st["k"] != "assign":
+                continue
+            rv = st["rv"]
+            if rv["k"] == "ref" and all(e["k"] == "field" for e in rv["place"]["proj"]) and rv["place"]["local"] != l:
+                target[l] = copy.deepcopy(rv["place"])
+        # copies of such a reference (argument binding of an inlined helper): q = move p
+        alias_defs = {}
+        for _r in range(4):
+            grew = False
+            for l, ds in defs.items():
+                if l in target or l <= m["argc"] or len(ds) != 1 or ds[0][1] == "term":
+                    continue
+                st = ds[0][2]
+                if st["k"] == "assign" and st["rv"]["k"] == "use" and st["rv"]["op"].get("k") in ("move", "copy") and not st["rv"]["op"]["place"]["proj"] \
+                        and st["rv"]["op"]["place"]["local"] in target and m["locals"][l]["ty"] == m["locals"][st["rv"]["op"]["place"]["local"]]["ty"]:
+                    target[l] = copy.deepcopy(target[st["rv"]["op"]["place"]["local"]])
+                    alias_defs[id(st)] = st["rv"]["op"]["place"]["local"]
+                    grew = True
+            if not grew:
+                break
+        if not target:
+            break
+        # every other mention of p must be a dereference
+        bad = set()
+
+        def visit_place(pl, is_def_of=None):
+            l = pl["local"]
+            if l in target and not (pl["proj"] and pl["proj"][0]["k"] == "deref"):
+                if is_def_of != l:
+                    bad.add(l)
+            for e in pl["proj"]:
+                if e["k"] == "index" and e["local"] in target:
+                    bad.add(e["local"])
+
+        def visit(x, is_def_of=None):
+            if isinstance(x, dict):
+                if "local" in x and "proj" in x and isinstance(x["proj"], list):
+                    visit_place(x, is_def_of)
+                    return
+                for v in x.values():
+                    visit(v)
+            elif isinstance(x, list):
+                for v in x:
+                    visit(v)
+        for b in blocks:
+            for st in b["stmts"]:
+                visit_place(st["place"], st["place"]["local"] if not st["place"]["proj"] else None)
+                if st["k"] == "assign" and id(st) not in alias_defs:
+                    visit(st["rv"])
+            visit(b["term"])
+        # an alias is only as good as the reference it copies
+        for _r in range(4):
+            for st_id, src in list(alias_defs.items()):
+                pass
+            for b in blocks:
+                for st in b["stmts"]:
+                    if id(st) in alias_defs and alias_defs[id(st)] in bad:
+                        bad.add(st["place"]["local"])
+                    # and a reference whose copy escapes (is used other than by dereference) must stay
+                    if id(st) in alias_defs and st["place"]["local"] in bad:
+                        bad.add(alias_defs[id(st)])
+        # the referent must not be a candidate itself (no chains in one round) and partial writes to a referent that is
+        # itself eliminated would be lost
+        target = {p: pl for p, pl in target.items() if p not in bad and pl["local"] not in target}
+        if not target:
+            break
+
+        def rewrite_place(pl):
+            l = pl["local"]
+            if l in target and pl["proj"] and pl["proj"][0]["k"] == "deref":
+                tp = target[l]
+                pl["local"] = tp["local"]
+                pl["proj"] = copy.deepcopy(tp["proj"]) + pl["proj"][1:]
+
+        def rewrite(x):
+            if isinstance(x, dict):
+                if "local" in x and "proj" in x and isinstance(x["proj"], list):
+                    rewrite_place(x)
+                    return
+                for v in x.values():
+                    rewrite(v)
+            elif isinstance(x, list):
+                for v in x:
+                    rewrite(v)
+        for b in blocks:
+            keep = []
+            for st in b["stmts"]:
+                if not st["place"]["proj"] and st["place"]["local"] in target:
+                    continue  # the definition of an eliminated reference
+                rewrite_place(st["place"])
+                if st["k"] == "assign":
+                    rewrite(st["rv"])
+                keep.append(st)
+            b["stmts"] = keep
+            rewrite(b["term"])
+        changed_any = True
+    return changed_any
+
+
 # ------------------------------------------------------------------------------------------------ is_ok / is_err
 
 def rewrite_is_ok(d):
@@ -1261,6 +1382,9 @@ def normalize(d, base_idx, log=None):
                 touched.add(p)
         if not any_change:
             break
+    for p in touched:
+        if p in bodies and "mir" in bodies[p]:
+            eliminate_local_refs(bodies[p])
     # drop the helper bodies (and re-parent their closures to a caller, for rules that look at closures of a function)
     callers = {}
     for (p, r) in done:
